@@ -37,6 +37,9 @@ CHECKS = {
  "C13": ("E2-shape-lattice", "exhaustive enumeration of the product (generated queries up to a size bound) x (all small datasets), each evaluation compared with a reference evaluator of the SPARQL 1.1 algebra",
          "Every query generated from the supported grammar up to nesting depth 2 (BGPs with repeated variables, blank-node placeholders and quoted-triple patterns, UNION, GRAPH iri/?g incl. absent graphs and nested GRAPH, FILTER and BIND over expressions of depth <= 2 incl. unbound variables and type errors, DISTINCT, projection, OFFSET/LIMIT, ASK) is evaluated on every dataset of the bounded family and compared as a multiset of solutions with the reference; unsupported operators must answer NotImplemented; no panic.",
          "Reference evaluator written from SPARQL 1.1 section 18; bounded query size and dataset size; OFFSET/LIMIT compared as sub-multisets of the right size.", "DESIGN.md §4 C13"),
+ "C14": ("E4-word-enumerator", "the engine's ORDER BY comparator is extracted end to end from all ordered pairs of a value alphabet and checked exhaustively on all pairs and triples; all 3-subsets x insertion orders x key lists are sorted end to end",
+         "The relation read from two-row sorts over every ordered pair of ~50 values covering every value class is a strict weak order (irreflexive, asymmetric, transitive, transitive ties), ranks unbound < blank node < IRI < literal and contains SPARQL '<' wherever a reference implementation of the operator defines it; every 3-subset in all 6 insertion orders under ASC/DESC/tie-breaking/unbound keys comes back as a correctly sorted permutation; long mixed inputs sort without panic.",
+         "Finite value alphabet; the relation is read through slice::sort_unstable_by on two rows (pinned toolchain); zoned/unzoned dateTime comparisons demanded only when determinate.", "DESIGN.md §4 C14"),
  "C15": ("E1-history-bfs", "exhaustive fault enumeration: every (item sequence, source, adapter chain, drop sets, consumer, fault position) pipeline of the bounded space is executed on the real code and compared with a list model",
          "All pipelines of <= 3/4 items x 4 sources x 40+16 adapter chains (every word of length <= 3 over filter/map/filter_map, and to_quads variants) x drop sets x 12 consumers x every single source-fault and sink-fault position (and their combinations) are run; the consumer must see exactly the filtered prefix before the fault, in order, the error must be attributed to the right side with the injected payload, counts must be right and the source must not be pulled after the fault.",
          "Bounded item count and chain depth; parser read-ahead is not observed.", "DESIGN.md §4 C15"),
